@@ -274,6 +274,14 @@ func (propC18) Gen(r *Rng, run uint64, tier string) *Plan {
 			f.DelayMs = 1 + fr.Intn(50)
 		}
 		p.Faults = []Fault{f}
+		if f.Kind == FaultOpenError && len(contA) >= 3 && fr.Bool(0.6) {
+			// several opens of one query fail at the same time
+			for _, j := range fr.Perm(len(contA))[:2] {
+				if contA[j].ID != c.ID {
+					p.Faults = append(p.Faults, Fault{Kind: FaultOpenError, Container: contA[j].ID, Open: -1})
+				}
+			}
+		}
 		p.Config = "race_faults"
 		p.Tags["race_fault"] = f.Kind
 	}
